@@ -9,6 +9,7 @@ mod c13;
 mod capp;
 mod explore;
 mod fault;
+mod label;
 mod faultsys;
 mod sys;
 mod watch;
@@ -34,8 +35,10 @@ fn main() {
         ("C11", Some(p)) => c11::replay_file(&p),
         ("C11", None) => c11::run(tier, &args),
         ("C11-child", _) => c11::child(&args),
-        ("C12", Some(p)) => c12::replay_file(&p),
-        ("C12", None) => c12::run(tier, &args),
+        // the whole C12 invocation runs in a guarded child: an input that makes the subject ask
+        // for an absurd allocation aborts that child, and the parent reports the input
+        ("C12", Some(p)) => mc_kit::guarded::run("C12", tier, || c12::replay_file(&p)),
+        ("C12", None) => mc_kit::guarded::run("C12", tier, || c12::run(tier, &args)),
         ("C13", Some(p)) => c13::replay_file(&p),
         ("C13", None) => c13::run(tier, &args),
         ("C13-host", _) => c13::host_child(&args),
